@@ -106,6 +106,16 @@ Theorem C08_collect_once : forall hooks ops init s l i fin s' t r (g : inst -> b
 Proof. exact collect_once. Qed.
 Print Assumptions C08_collect_once.
 
+(* Teardown: every call hook declared at DESTROY or after_DESTROY is called and collected on the
+   spot, whatever other hooks share its weight (former finding C08-b, repaired: the after_DESTROY
+   hooks of a weight used to replace its DESTROY hooks). *)
+Theorem C08_destroy_hooks_all_run : forall hooks orc s h,
+  In h hooks -> is_call h = true -> fst (h_trig h) = MDestroy \/ fst (h_trig h) = MAfterDestroy ->
+  In (TStart (new_inst orc h) h (e_rv s)) (destroy_trace hooks orc s) /\
+  In (TCollect (new_inst orc h) (h_trig h)) (destroy_trace hooks orc s).
+Proof. exact destroy_all_run. Qed.
+Print Assumptions C08_destroy_hooks_all_run.
+
 (* Trigger expression = name +/- weight: no sign character means weight +0 ... *)
 Theorem C08_parse_plain : forall s, no_sign s -> parse_trigger s = (s, 0%Z).
 Proof. exact parse_trigger_plain. Qed.
